@@ -253,7 +253,7 @@ LEVELS = {
         "technique": 'Coq proof (induction on depth fuel with top-level helpers, append-only buffer invariant, rule contract) + generator with by-construction expectations evaluated in Coq against implementation and model',
     },
     "C13": {
-        "text": 'Theorems in Coq: for every value without the invalid reflect.Value inside (nil, typed nil pointers, nil elements, pointers to pointers, scalars, any map, non-maps ...), every configuration (arbitrary rule bytes, rule sets, registered functions incl. nil) each of the four entry points returns Ok: never Panic, never out of fuel with fuel = depth+2. Tied by a hostile-input stream comparing panicked/returned.',
+        "text": 'Theorems in Coq: for every value without the invalid reflect.Value inside (nil, typed nil pointers, nil elements, pointers to pointers, scalars, any map, non-maps ...), every configuration (arbitrary rule bytes, rule sets, registered functions incl. nil) each of the four entry points returns Ok: never Panic, never out of fuel with fuel = depth+2. From the source text (REGENERATED FROM /repo ON EVERY RUN): on a well-formed value the syntax tree of VVar.validate, under the semantics of Model/GoWalk.v, returns normally - no panic, no form without a meaning - for every configuration and buffer, having written exactly the clauses of the rules of the variable in rule order (C13_var_walker_source_total). Tied by a hostile-input stream comparing panicked/returned.',
         "design_ref": "DESIGN.md section 5, C13",
         "note": "PARTIAL: the model's only explicit panic source is IsZero on the invalid Value; Go slice/index panics are modelled by total functions at sites repaired or checked by reading, so an unknown panic site is found by the correspondence stream (it found re=' and nil *string), not by the theorem.",
         "technique": 'Coq proof (induction on depth fuel with top-level helpers, append-only buffer invariant, rule contract) + generator with by-construction expectations evaluated in Coq against implementation and model',
